@@ -8,11 +8,42 @@ import numpy as np
 from .. import gen, impl, oracle, ser, stream
 
 ID = "C16"
-LEVEL = "translation_validation"
-PROPS_MODULE = None
-THEOREMS = []
-LEAN_FILES = []
-PLANNED = ["classSymmetry_spec", "constructors_agree", "toDense_fromDense", "fromDense_toDense"]
+LEVEL = "proof"
+PROPS_MODULE = "SymmModel.Props.C16"
+THEOREMS = [
+    "SymmModel.C16.classSymmetry_spec",
+    "SymmModel.C16.classSymmetry_static_none",
+    "SymmModel.C16.classSymmetry_static_same",
+    "SymmModel.C16.classSymmetry_static_other",
+    "SymmModel.C16.classSymmetry_generic_none",
+    "SymmModel.C16.classSymmetry_generic_some",
+    "SymmModel.C16.classSymmetry_static_eq_generic",
+    "SymmModel.C16.construct_spec",
+    "SymmModel.C16.construct_charge_default",
+    "SymmModel.C16.construct_charge",
+    "SymmModel.C16.construct_first_sector",
+    "SymmModel.C16.construct_error_iff",
+    "SymmModel.C16.fromBlocks_eq_construct",
+    "SymmModel.C16.fromBlocks_nil",
+    "SymmModel.C16.fromBlocks_indices",
+    "SymmModel.C16.fromBlocks_error_iff",
+    "SymmModel.C16.fromBlocks_agrees_with_construct",
+    "SymmModel.C16.fromBlocks_of_array",
+    "SymmModel.C16.fromFillFn_blocks",
+    "SymmModel.C16.fromFillFn_agrees_with_construct",
+    "SymmModel.C16.fromDense_eq_construct",
+    "SymmModel.C16.fromDense_indices",
+    "SymmModel.C16.chargeGroups_spec",
+    "SymmModel.C16.fromDense_blocks",
+    "SymmModel.C16.toDense_fromDense",
+    "SymmModel.C16.origPos_stable_sort",
+    "SymmModel.C16.origAll_eq",
+    "SymmModel.C16.fromDense_toDense",
+    "SymmModel.C16.fromDense_toDense_of_valid",
+    "SymmModel.C16.labelsOf_spec"
+]
+LEAN_FILES = ["SymmModel.Props.C16", "SymmModel.Proofs.DenseLemmas"]
+PLANNED = []
 RULE = ("random tensors described four ways (direct constructor, from_blocks, from_dense with per-axis charge "
         "labels, from_fill_fn) on fixed-symmetry and generic classes, abelian and fermionic, every combination of "
         "omitted optional arguments (charge, symmetry), wrong symmetry argument; dense arrays with unsorted, "
